@@ -260,8 +260,16 @@ func c12Child(args []string) int {
 				return h.Root
 			}
 		} else {
+			lateMutation := round%12 == 7
+			if lateMutation {
+				kind = "zoo-mutation-type-added-through-the-go-api"
+			}
 			coldRoot = func() *ggql.Root {
-				root, _, err := zoo.NewRoot()
+				mk := zoo.NewRoot
+				if lateMutation {
+					mk = zoo.NewRootMutationAdded
+				}
+				root, _, err := mk()
 				if err != nil {
 					panic(err)
 				}
